@@ -35,6 +35,9 @@ func generate(prop string, seed uint64, i int) *Scenario {
 	case "C20":
 		return genWrap(rs, faulty)
 	}
+	if prop == "C09" && i%16 == 7 {
+		return genPlain(rs, faulty) // the same options with a config type that has no Verify method
+	}
 	return genCore(prop, rs, faulty)
 }
 
